@@ -18,14 +18,16 @@ def upstreamSent : List PEv → (connected : Bool) → Bytes × Bool
   | .upClose :: _, true => ([], true)
   | _ :: rest, conn => upstreamSent rest conn
 
+/-- the `name: value` pairs of the header lines; `none` when some line is not of that form: no
+    colon, or nothing but white space before the first colon -/
 def headerPairs (lines : List Bytes) : Option (List (Bytes × Bytes)) :=
   lines.foldr (fun l acc =>
     match acc, breakOn [COLON] l with
-    | some hs, some (n, v) => some ((trim n, trim v) :: hs)
+    | some hs, some (n, v) => if (trim n).isEmpty then none else some ((trim n, trim v) :: hs)
     | _, _ => none) (some [])
 
 /-- an upstream response head the proxy must understand: `version SP code SP reason` with a code
-    in 100..599, then `name: value` lines -/
+    in 100..599, then `name: value` lines (each with a colon and a name that is not blank) -/
 def specHead (head : Bytes) : Option (Int × Bytes × List (Bytes × Bytes)) :=
   match splitF CRLF (head.length + 1) none head with
   | [] => none
@@ -89,11 +91,16 @@ def holds (env : Env) (c : Cfg) (evs : List PEv) (obs : List Obs) : Bool :=
   Everything below is for EVERY list of chunks (every segmentation of the upstream stream),
   every `env` (error page, URL oracle) and every proxy state satisfying the stated hypotheses.
 
-  FINDING (model = library, confirmed on the harness): an upstream header line with an empty or
-  blank name (`": v"`, `"  : v"`) is accepted by `Parser::parseHeaderList` and relayed as the line
-  `": v"`, which the strict reader refuses; `holds` is false on
-  `new feed:"GET /a HTTP/1.1<CRLF><CRLF>" turn up:"HTTP/1.1 200 OK<CRLF>: v<CRLF><CRLF>body" turn ackall turn`
-  (see `empty_name_relayed`).  Hence the hypothesis `upOk` of the re-parsing theorems. -/
+  REPAIRED FINDING: an upstream header line with an empty or blank name (`": v"`, `"  : v"`) used to
+  be accepted by `Parser::parseHeaderList` and relayed as the line `": v"`, which the strict reader
+  refuses; `holds` was false on
+  `new feed:"GET /a HTTP/1.1<CRLF><CRLF>" turn up:"HTTP/1.1 200 OK<CRLF>: v<CRLF><CRLF>body" turn ackall turn`.
+  The parser now refuses such a line, so that head is unparsable and the client gets the 502
+  (`empty_name_502`, `blank_name_unparsable`); `specHead` says the same (a `name: value` line needs
+  a name).  With that the hypothesis `upOk`/`upstreamOk` of the re-parsing theorems and of
+  `holds_run` (non-empty names, no CR in reason, names, values) is gone altogether: whatever
+  `Parser::parseResponseHeaders` accepts re-reads (`C13L.resp_parts_ok`: names non-empty and free
+  of ':', nothing contains CR LF; a lone CR is an ordinary byte, `Http.parse_render_w`). -/
 
 open C13L
 
@@ -206,36 +213,19 @@ theorem relay_prefix (env : Env) (pre post : List Bytes) (st : St) {head body re
     rw [hb] at h2; cases h2
     rw [hq] at hp'; cases hp'
 
-/-- what the upstream head must satisfy for the relayed response to be readable by the strict
-    reader: no CR in the reason; every `name: value` pair has a non-empty name, no CR in name or value -/
-def upOk (head : Bytes) : Bool :=
-  match specHead head with
-  | none => true
-  | some (_, reason, pairs) => !containsByte CR reason && pairs.all pairOk
-
-/-- the relayed bytes re-parse: the strict reader finds the status line, which reads back as the
-    upstream's code and reason, the parsed header map entry by entry, and the body -/
+/-- the relayed bytes re-parse, for EVERY head the library's parser accepts (no hypothesis on the
+    upstream head): the strict reader finds the status line, which reads back as the upstream's
+    code and reason, the parsed header map entry by entry, and the body -/
 theorem relay_reparses {head body reason : Bytes} {code : Int} {hs : HeaderMap}
-    (hq : Parser.parseResponseHeaders head = some (code, reason, hs)) (hok : upOk head = true) :
+    (hq : Parser.parseResponseHeaders head = some (code, reason, hs)) :
     ∃ m, Http.parse (lit ['H','T','T','P','/','1','.','0',' '] ++ intText code ++ [SP] ++ reason ++ CRLF ++
           Sock.headerLines hs ++ CRLF ++ body) = some m ∧
       Http.statusLine m.start = some { code := code.natAbs, reason := reason } ∧
       ((code.natAbs : Nat) : Int) = code ∧ m.headers = hs ∧ m.body = body := by
-  rw [specHead_eq] at hq
-  unfold upOk at hok
-  cases hs' : specHead head with
-  | none => rw [hs'] at hq; cases hq
-  | some x =>
-    obtain ⟨c, r, pairs⟩ := x
-    rw [hs'] at hq hok
-    simp only [Option.map_some, Option.some.injEq, Prod.mk.injEq] at hq
-    obtain ⟨rfl, rfl, rfl⟩ := hq
-    simp only [Bool.and_eq_true, Bool.not_eq_true', Http.containsByte_eq_false] at hok
-    have hc := code_range_of_specHead' hs'
-    have hc0 : 0 ≤ c := by omega
-    have hw := hdrWf_mapOf (colon_free_of_specHead' hs') hok.2
-    obtain ⟨h1, h2⟩ := parse_relayed body hc0 hok.1 hw
-    exact ⟨_, h1, h2, Int.natAbs_of_nonneg hc0, rfl, rfl⟩
+  obtain ⟨hr, hw, hc, _⟩ := resp_parts_ok hq
+  have hc0 : 0 ≤ code := by omega
+  obtain ⟨h1, h2⟩ := parse_relayed_w body hc0 hr hw
+  exact ⟨_, h1, h2, Int.natAbs_of_nonneg hc0, rfl, rfl⟩
 
 /-! ### 7. failures become exactly one 502; afterwards the wire never changes -/
 
@@ -336,9 +326,8 @@ def exHead : Bytes :=
 example : WOpen ({} : St).sock ∧ ({} : St).headersParsed = false ∧ ({} : St).upRead = [] ∧
     breakOn CRLF2 exChunks.flatten = some (exHead, lit ['b','o','d','y','\r','\n','\r','\n','x']) ∧
     Parser.parseResponseHeaders exHead =
-      some (200, lit ['O','K'], [(lit ['a'], lit ['c']), (lit ['A'], lit ['b'])]) ∧
-    upOk exHead = true :=
-  ⟨wopen_default, rfl, rfl, by decide, by decide, by decide⟩
+      some (200, lit ['O','K'], [(lit ['a'], lit ['c']), (lit ['A'], lit ['b'])]) :=
+  ⟨wopen_default, rfl, rfl, by decide, by decide⟩
 
 /-- and the model evaluated on it -/
 example : Obs.wire (deliverAll C01.envT exChunks {}).sock.log =
@@ -349,14 +338,32 @@ example : Obs.wire (deliverAll C01.envT exChunks {}).sock.log =
 example : Parser.parseResponseHeaders (lit ['H','T','T','P','/','1','.','1',' ','9','9',' ','O','K']) = none ∧
     specHead (lit ['H','T','T','P','/','1','.','1',' ','9','9',' ','O','K']) = none := by decide
 
-/-- FINDING (see the file comment): a header line with an empty name is accepted by the library's
-    parser and by `specHead`, relayed as `": v"`, and the strict reader refuses the result -/
-theorem empty_name_relayed :
+/-- REPAIRED FINDING (see the file comment): an upstream head with a header line whose name is
+    empty or blank is refused by the library's parser and by `specHead` alike (it used to be
+    parsed to the entry `("", "v")` and relayed as the line `": v"`) -/
+theorem empty_name_502 :
     let head : Bytes := lit ['H','T','T','P','/','1','.','1',' ','2','0','0',' ','O','K','\r','\n',':',' ','v']
-    Parser.parseResponseHeaders head = some (200, lit ['O','K'], [([], lit ['v'])]) ∧
-    specHead head = some (200, lit ['O','K'], [([], lit ['v'])]) ∧ upOk head = false ∧
-    Http.parse (headOut 200 (lit ['O','K']) [([], lit ['v'])] ++ lit ['b']) = none := by
+    let head2 : Bytes := lit ['H','T','T','P','/','1','.','1',' ','2','0','0',' ','O','K','\r','\n','A',':','b','\r','\n',' ','\t',':','v']
+    Parser.parseResponseHeaders head = none ∧ specHead head = none ∧
+    Parser.parseResponseHeaders head2 = none ∧ specHead head2 = none := by
   decide +kernel
+
+/-- in general: an upstream head `first CRLF line …` (pieces free of CRLF) one of whose header
+    lines has nothing but white space before its first colon is unparsable, wherever the line
+    stands — so by `fault_502_badhead` the client receives exactly the 502, for every chunking -/
+theorem blank_name_unparsable (first : Bytes) (pre post : List Bytes) (n x : Bytes)
+    (hf : ¬ CRLF <:+: first) (hl : ∀ l ∈ pre ++ (n ++ [COLON] ++ x) :: post, ¬ CRLF <:+: l)
+    (hn : COLON ∉ n) (hb : Parser.Blank n) :
+    Parser.parseResponseHeaders (joinWith CRLF (first :: (pre ++ (n ++ [COLON] ++ x) :: post))) = none := by
+  unfold Parser.parseResponseHeaders Parser.parseHeaders
+  rw [split_CRLF_joinWith _ (by simp) (by
+    intro p hp
+    rcases List.mem_cons.1 hp with rfl | hp
+    · exact hf
+    · exact hl p hp)]
+  simp only [C12.blank_name_refused pre post n x [] hn hb]
+  generalize split [SP] 2 first = parts
+  rcases parts with _ | ⟨p0, _ | ⟨p1, _ | ⟨p2, _ | ⟨p3, ps⟩⟩⟩⟩ <;> rfl
 
 end examples
 
@@ -382,14 +389,6 @@ theorem delivered_def (evs : List PEv) : delivered evs = delivered' evs := rfl
 def shapeOk (refuse : Bool) : List PEv → Bool
   | .sock .new :: .sock (.feed _) :: .turn :: rest => restOk (if refuse then .closed else .open) rest
   | _ => false
-
-/-- the hypothesis on the upstream stream (see the finding in the file comment): if it contains a
-    complete head that `specHead` reads, its reason has no CR and every header pair has a
-    non-empty name and no CR in name or value -/
-def upstreamOk (evs : List PEv) : Bool :=
-  match breakOn CRLF2 (upstreamSent evs false).1 with
-  | none => true
-  | some (head, _) => upOk head
 
 theorem clientStream_rest : ∀ (r : List PEv) (ph : UpPh), restOk ph r = true → C12.clientStream r = [] := by
   intro r
@@ -432,9 +431,10 @@ theorem accepted_of_expect {env : Env} {req head : Bytes} (h1 : C01.headOf req =
     run of the model for EVERY history of the shape above — every client request (accepted or
     not, with or without body bytes), every upstream byte stream in every segmentation and with
     every interleaving of turns and acknowledgements, upstream close at any point, connection
-    refused or not — under `upstreamOk` (explicit and necessary: `empty_name_relayed`). -/
-theorem holds_run (env : Env) (c : Cfg) (evs : List PEv) (hs : shapeOk c.refuse evs = true)
-    (hu : (c.refuse || upstreamOk evs) = true) :
+    refused or not.  No hypothesis on the upstream bytes (the former `upstreamOk` — non-empty header
+    names, no CR in reason, names, values — is gone: heads with an empty or blank header name are
+    unparsable and get the 502, everything the parser accepts re-reads, `relay_reparses`). -/
+theorem holds_run (env : Env) (c : Cfg) (evs : List PEv) (hs : shapeOk c.refuse evs = true) :
     holds env c evs (Proxy.run env c evs).sock.log = true := by
   unfold shapeOk at hs
   split at hs
@@ -479,13 +479,10 @@ theorem holds_run (env : Env) (c : Cfg) (evs : List PEv) (hs : shapeOk c.refuse 
       have hus : upstreamSent (.sock .new :: .sock (.feed req) :: .turn :: rest) false =
           upstreamSent' rest true := by
         rw [upstreamSent_def]; rfl
-      have hok : upstreamOk (.sock .new :: .sock (.feed req) :: .turn :: rest) = true := by
-        simpa [hrf'] using hu
-      unfold upstreamOk at hok
-      rw [hus] at hok ⊢
-      generalize upstreamSent' rest true = sc at fin hok
+      rw [hus]
+      generalize upstreamSent' rest true = sc at fin
       obtain ⟨sent, closed⟩ := sc
-      dsimp only at fin hok ⊢
+      dsimp only at fin ⊢
       unfold FinalP at fin
       cases hb : breakOn CRLF2 sent with
       | none =>
@@ -500,8 +497,8 @@ theorem holds_run (env : Env) (c : Cfg) (evs : List PEv) (hs : shapeOk c.refuse 
           rw [fin]; rfl
       | some hbdy =>
         obtain ⟨head, body⟩ := hbdy
-        rw [hb] at fin hok
-        dsimp only at fin hok ⊢
+        rw [hb] at fin
+        dsimp only at fin ⊢
         have hsp := specHead_eq head
         cases hsh : specHead head with
         | none =>
@@ -517,13 +514,9 @@ theorem holds_run (env : Env) (c : Cfg) (evs : List PEv) (hs : shapeOk c.refuse 
           rw [hsp] at fin
           dsimp only at fin ⊢
           obtain ⟨hw, hcl⟩ := fin
-          unfold upOk at hok
-          rw [hsh] at hok
-          simp only [Bool.and_eq_true, Bool.not_eq_true', Http.containsByte_eq_false] at hok
-          have hc := code_range_of_specHead' hsh
-          have hwf := hdrWf_mapOf (colon_free_of_specHead' hsh) hok.2
-          have hrc := relayCheck_relayed (code := code) (reason := reason) (pairs := pairs) body
-            (by omega) hok.1 hwf
+          obtain ⟨hr, hwf, hc, _⟩ := resp_parts_ok hsp
+          have hrc := relayCheck_relayed_w (code := code) (reason := reason) (pairs := pairs) body
+            (by omega) hr hwf
           rw [Bool.and_eq_true]
           constructor
           · rw [hw]; exact hrc
@@ -569,9 +562,9 @@ def exRefused : List PEv :=
 
 /-- the hypotheses of `holds_run` hold on these histories, the request is accepted and everything
     was delivered (so `holds` does not return `true` trivially) -/
-example : shapeOk false exRelay = true ∧ upstreamOk exRelay = true ∧ delivered exRelay = true ∧
-    shapeOk false exBad = true ∧ upstreamOk exBad = true ∧ delivered exBad = true ∧
-    shapeOk false exShort = true ∧ upstreamOk exShort = true ∧ delivered exShort = true ∧
+example : shapeOk false exRelay = true ∧ delivered exRelay = true ∧
+    shapeOk false exBad = true ∧ delivered exBad = true ∧
+    shapeOk false exShort = true ∧ delivered exShort = true ∧
     shapeOk true exRefused = true ∧ delivered exRefused = true ∧
     ((C01.headOf exReq).bind (C01.expect exEnv)).isSome = true := by decide +kernel
 
@@ -589,7 +582,7 @@ example : Obs.wire (Proxy.run exEnv {} exBad).sock.log =
 
 /-- the executable predicate evaluated on these runs (also given by `holds_run`) -/
 example : holds exEnv {} exRelay (Proxy.run exEnv {} exRelay).sock.log = true :=
-  holds_run exEnv {} exRelay (by decide +kernel) (by decide +kernel)
+  holds_run exEnv {} exRelay (by decide +kernel)
 example : holds exEnv {} exRelay (Proxy.run exEnv {} exRelay).sock.log = true ∧
     holds exEnv {} exBad (Proxy.run exEnv {} exBad).sock.log = true ∧
     holds exEnv {} exShort (Proxy.run exEnv {} exShort).sock.log = true ∧
@@ -605,12 +598,25 @@ example :
     shapeOk false evs = false ∧ holds exEnv {} evs (Proxy.run exEnv {} evs).sock.log = false := by
   decide +kernel
 
-/-- and `upstreamOk` is necessary: the empty header name -/
+/-- the repaired finding on a whole run: the upstream head with the empty header name is
+    unparsable, the client receives the 502 and nothing else, and `holds` is true (it was false:
+    the line `": v"` was relayed) -/
 example :
     let evs : List PEv := [.sock .new, .sock (.feed exReq), .turn,
       .up (C01.str "HTTP/1.1 200 OK\r\n: v\r\n\r\nbody"), .turn]
-    shapeOk false evs = true ∧ upstreamOk evs = false ∧
-    holds exEnv {} evs (Proxy.run exEnv {} evs).sock.log = false := by
+    shapeOk false evs = true ∧
+    holds exEnv {} evs (Proxy.run exEnv {} evs).sock.log = true ∧
+    Obs.wire (Proxy.run exEnv {} evs).sock.log = Obs.wire (Proxy.run exEnv {} exBad).sock.log := by
+  decide +kernel
+
+/-- an upstream head OUTSIDE the former hypothesis `upstreamOk` that `holds_run` now covers: lone
+    CRs in the reason, in a header name and in a header value; relayed as they are, and re-read -/
+example :
+    let evs : List PEv := [.sock .new, .sock (.feed exReq), .turn,
+      .up (C01.str "HTTP/1.1 200 O\rK\r\nX\rY: a\rb\r\n\r\nbody"), .turn]
+    shapeOk false evs = true ∧
+    holds exEnv {} evs (Proxy.run exEnv {} evs).sock.log = true ∧
+    Obs.wire (Proxy.run exEnv {} evs).sock.log = C01.str "HTTP/1.0 200 O\rK\r\nX\rY: a\rb\r\n\r\nbody" := by
   decide +kernel
 
 end examples8
